@@ -262,9 +262,8 @@ PageBase(a)  == <<0, a[2] - (a[2] % 4), a[3], a[4]>>
 PagesOk(e)   == \A i \in 1..Len(e.post.pages) :
                    e.post.pages[i] \in { Zext(64, PageBase(e.win)), Zext(64, PageBase(Add(32, e.win, N32(Len(e.mem0) - 1)))) }
 
-RunDiff(p, e, m) ==
-  LET st  == IF m.lastbr THEN m.prev ELSE m.st         \* stopped between a branch and its delay slot: nothing of the unit is visible yet
-      bad == SelectSeq(Comps(e, st), LAMBDA c : c.n \notin m.dc /\ (c.ew # c.ow \/ c.ev # c.ov)) IN
+RunDiffAt(p, e, m, st) ==
+  LET bad == SelectSeq(Comps(e, st), LAMBDA c : c.n \notin m.dc /\ (c.ew # c.ow \/ c.ev # c.ov)) IN
   (IF m.k = "diverge" THEN <<"pcs">> ELSE <<>>)
   \o (IF e.out.k \in {"limit", "exit"} THEN
          (IF m.k = "run" /\ e.out.npc # Zext(64, m.pc) THEN <<"npc">> ELSE <<>>)
@@ -275,6 +274,12 @@ RunDiff(p, e, m) ==
                           \o (IF e.post.mem1 # st.mem THEN <<"mem">> ELSE <<>>)
                           \o (IF PagesOk(e) THEN <<>> ELSE <<"pages">>)
       ELSE <<>>)
+\* A run that stops between a branch and its delay slot: the architecture has written the link register (m.st).
+\* A lifter that emits the link write behind the delay slot (C02 finding, parts/C02.fix-13.patch) shows the state
+\* before the branch (m.prev); nothing else of the unit is visible yet, so both are accepted here - the ordering
+\* itself is C02's subject.
+RunDiff(p, e, m) ==
+  IF m.lastbr /\ RunDiffAt(p, e, m, m.st) # <<>> THEN RunDiffAt(p, e, m, m.prev) ELSE RunDiffAt(p, e, m, m.st)
 
 RunDetail(p, e, m) ==
   LET st  == IF m.lastbr THEN m.prev ELSE m.st
